@@ -99,6 +99,13 @@ func c19History(v asmVariant, capacity int, ops []asmOp, window, viaClone bool) 
 	if dry {
 		return ""
 	}
+	for _, op := range ops {
+		if strings.HasPrefix(op.name, "SetBase(") {
+			// Finalize locates operands at address - base with the one base it knows: after a SetBase in
+			// mid-sequence its outcome (error, or a wild index, depending on map order) says nothing about capacity
+			return ""
+		}
+	}
 	// a refused label-referencing call must not have registered a reference: Finalize like the twin
 	fin := func(e *asm.Emitter) (err error, pn interface{}) {
 		defer func() { pn = recover() }()
